@@ -69,6 +69,12 @@ const HOSTILE: &[(&str, &str)] = &[
     ("comment-unterminated", "/* abc\n"),
     ("todo", "TODO: x\n"),
     ("escapes", "\\{ \\} \\| \\# \\\\ \\\n"),
+    ("call-through-variable-in-global-initialiser", "VAR f = -> k\nVAR y = f()\n== k ==\n-> k\n"),
+    ("float-literal-beyond-f32", "{1000000000000000000000000000000000000000.0}\n~ temp t = 0.0000000000000000000000000000000000000000000000001\n"),
+    ("list-item-value-u32-max", "LIST l = a = 4294967295, b\nLIST m = c = 2147483647, d\n{l} {m}\n"),
+    ("choice-empty-brackets", "* [] text after\n* a [ ] b\n- end\n"),
+    ("empty-multiline-sequences", "{ shuffle:\n}\n{ cycle:\n}\n{ stopping:\n}\n{ once:\n}\n"),
+    ("digit-only-names", "-> 1\n== 1 ==\nOne.\n-> k.2\n== k ==\n= 2\nTwo.\n-> END\n"),
     ("dup-item-names", "LIST lp = (same), p2\nLIST lq = q1, (same)\nLIST lr = r1, r2, (same)\nVAR m = ()\n~ m = (same)\n{m} {LIST_VALUE(m)}\n~ m = (same, p2)\n{m}\n{same}\n"),
     ("dup-item-names-in-knot", "LIST lp = (same), p2\nLIST lq = q1, (same)\nLIST lr = r1, r2, (same)\nVAR m = ()\n-> k\n=== k ===\n~ m = (same)\n{m}\n* [{same}] -> k\n"),
     ("dup-knot-and-var-names", "VAR k = 1\nLIST l = k, j\n-> k\n=== k ===\n{k}\n-> END\n=== j ===\n-> END\n"),
@@ -136,6 +142,59 @@ fn stateful_compile_check(stats: &mut Stats) -> Vec<(String, String)> {
 /// 62 additions on top of the operand to their left: 62 levels of tree height without any bracket
 const CHAIN62: &str = " + 1 + 1 + 1 + 1 + 1 + 1 + 1 + 1 + 1 + 1 + 1 + 1 + 1 + 1 + 1 + 1 + 1 + 1 + 1 + 1 + 1 + 1 + 1 + 1 + 1 + 1 + 1 + 1 + 1 + 1 + 1 + 1 + 1 + 1 + 1 + 1 + 1 + 1 + 1 + 1 + 1 + 1 + 1 + 1 + 1 + 1 + 1 + 1 + 1 + 1 + 1 + 1 + 1 + 1 + 1 + 1 + 1 + 1 + 1 + 1 + 1 + 1";
 
+/// `vrun c06-stateful`: the stateful check in a process of its own (a compiler that hangs on one of
+/// the texts must not hang the check), one "canary<0x01>what" line per finding, then DONE
+pub fn stateful_main() -> i32 {
+    let mut st = Stats::default();
+    for (c, w) in stateful_compile_check(&mut st) {
+        println!("{c}\u{1}{}", w.replace('\n', " "));
+    }
+    println!("DONE {} {}", st.get("stateful_compile_canaries"), st.get("stateful_compile_disturbers"));
+    0
+}
+
+fn stateful_in_subprocess(stats: &mut Stats) -> Vec<(String, String)> {
+    let exe = std::env::current_exe().ok().and_then(|p| p.to_str().map(|s| s.to_string())).unwrap_or_default();
+    let Ok(mut child) = std::process::Command::new(&exe).arg("c06-stateful").stdout(std::process::Stdio::piped()).stderr(std::process::Stdio::null()).spawn() else {
+        return vec![("machinery".into(), "cannot start the stateful-compile process".into())];
+    };
+    let started = std::time::Instant::now();
+    let finished = loop {
+        match child.try_wait() {
+            Ok(Some(_)) => break true,
+            Ok(None) if started.elapsed() > Duration::from_secs(240) => break false,
+            Ok(None) => std::thread::sleep(Duration::from_millis(100)),
+            Err(_) => break false,
+        }
+    };
+    if !finished {
+        let _ = child.kill();
+        let _ = child.wait();
+        return vec![("no-answer".into(), "compiling the hostile texts one after the other in one process did not finish within 240 s (a compilation hangs)".into())];
+    }
+    let mut text = String::new();
+    if let Some(mut out) = child.stdout.take() {
+        use std::io::Read;
+        let _ = out.read_to_string(&mut text);
+    }
+    let mut found = vec![];
+    let mut done = false;
+    for l in text.lines() {
+        if let Some(rest) = l.strip_prefix("DONE ") {
+            done = true;
+            let n: Vec<u64> = rest.split(' ').filter_map(|x| x.parse().ok()).collect();
+            stats.add("stateful_compile_canaries", *n.first().unwrap_or(&0));
+            stats.add("stateful_compile_disturbers", *n.get(1).unwrap_or(&0));
+        } else if let Some((c, w)) = l.split_once('\u{1}') {
+            found.push((c.to_string(), w.to_string()));
+        }
+    }
+    if !done {
+        found.push(("died".into(), "the process that compiles the hostile texts one after the other died before it was done (abort or stack overflow in the compiler)".into()));
+    }
+    found
+}
+
 fn deep_inputs(all_depths: bool) -> Vec<(String, String)> {
     let mut v = vec![];
     for depth in [50usize, 500, 5000, 50000] {
@@ -145,6 +204,14 @@ fn deep_inputs(all_depths: bool) -> Vec<(String, String)> {
         v.push((format!("long-line-{depth}"), format!("{}\n", "word ".repeat(depth))));
         v.push((format!("many-nots-{depth}"), format!("{{{} x}}\n", "not ".repeat(depth))));
         v.push((format!("many-minus-{depth}"), format!("{{{}1}}\n", "-".repeat(depth))));
+    }
+    // labelled gathers that go one level deeper per line
+    for depth in [100usize, 400, 1000, 3500] {
+        let mut t = String::new();
+        for i in 1..=depth {
+            t.push_str(&format!("{}(l{i}) a\n", "-".repeat(i)));
+        }
+        v.push((format!("gather-stairs-{depth}"), t));
     }
     // every alternation of two nesting constructs, so that a depth bookkeeping that is right
     // for each construct alone but loses height where one wraps the other (a tall argument that is
@@ -468,7 +535,7 @@ pub fn run(tier: Tier) -> i32 {
         stats.violation(mk(*i, format!("hang/{fam}"), "no answer within the 10 s per-input cap, nor within 120 s when compiled alone".into()));
     }
     // the compiler is a function of its input: what it did before must not matter
-    for (canary, what) in stateful_compile_check(&mut stats) {
+    for (canary, what) in stateful_in_subprocess(&mut stats) {
         stats.violation(Violation {
             property: ID.into(),
             class: format!("{ID}/stateful-compile/{canary}"),
